@@ -116,6 +116,7 @@ Conc(s) ==
     [] s = "capo" -> <<BS,"c","a","p","t","i","o","n","[","z","]","{">>
     [] s = "seco" -> <<BS,"s","e","c","t","i","o","n","[","z","]","{">>
     [] s = "tbs"  -> <<BS,"t","e","x","t","b","a","c","k","s","l","a","s","h">>
+    [] s = "fct"  -> <<BS,"f","o","o","t","c","i","t","e","{","k","}">>          \* biblatex: a citation in a footnote
     \* \LTalter{first}{second}: only the second argument is typeset; files read by \LTinput (created by the harness)
     [] s = "alt" -> <<BS,"L","T","a","l","t","e","r","{">>
     [] s = "acb" -> <<"}","{">>
@@ -243,7 +244,7 @@ EnvOf(s) == CASE s \in {"bi","ei"} -> "itemize" [] s \in {"be","ee"} -> "enumera
               [] s \in {"bu","eu"} -> "unk" [] s \in {"bl","el"} -> "lstlisting" [] s \in {"bm","em"} -> "minipage"
 
 AllSyms == Visible \cup ReplSyms \cup OpenSyms \cup BeginSyms \cup EndSyms \cup
-   {"sp","nl","tab","cm","lb","ix","uk","uk2","cb","skp","par","im","imp","ref","cite","skb","ske","q","fnq","it","vb","vrb","vrb2","ocb","ctc","rbk","up","uA","uBt","uH","hsu","phu","cmf","cmu","acb","ltE","ltD","gld","gls","ilc","tamp","tbsl","acc","hsp","hs0","phn","tbs","ntm"} \cup DefSyms \cup MathSyms \cup FaultSyms \cup LangSyms
+   {"sp","nl","tab","cm","lb","ix","uk","uk2","cb","skp","par","im","imp","ref","cite","skb","ske","q","fnq","it","vb","vrb","vrb2","ocb","ctc","rbk","up","uA","uBt","uH","hsu","phu","cmf","cmu","acb","ltE","ltD","gld","gls","ilc","tamp","tbsl","acc","hsp","hs0","phn","tbs","ntm","fct"} \cup DefSyms \cup MathSyms \cup FaultSyms \cup LangSyms
 
 (***************************************************************************)
 (* Reference state                                                         *)
@@ -334,6 +335,7 @@ AllowedCtx(st, s) ==
   /\ s \in {"capo"} => ~InKind(st, "fn")
   /\ s \in {"seco"} => ~InKind(st, "sec") /\ ~InKind(st, "arg") /\ st.mode # "extr"
   /\ s \in {"acc", "hsp", "hs0", "phn", "tbs"} => ~InKind(st, "sec")
+  /\ s = "fct" => ~InKind(st, "fn") /\ ~InKind(st, "sec") /\ st.mode # "extr"
   /\ s = "acb" => st.ctx # <<>> /\ Top(st).k = "alt1"
   /\ s = "alt" => ~InKind(st, "sec") /\ ~InKind(st, "fn") /\ ~InKind(st, "arg") /\ ~InKind(st, "alt1") /\ ~InKind(st, "hid")
   /\ (st.ctx # <<>> /\ Top(st).k = "alt1") => s \in Visible \cup {"sp", "acb"}
@@ -509,6 +511,11 @@ Step(st, s) ==
     [] s = "hsp" -> Emit(s1, <<Lay("x"), It("g", "ws", p0+1, p1, 0), Lay("x")>>)
     [] s = "hs0" -> Emit(s1, <<Lay("v")>>)
     [] s = "phn" -> Emit(s1, <<Lay("x"), It("g", "ws", p0+1, p1, 0), Lay("x")>>)
+    [] s = "fct" ->
+         \* \footcite{k}: a detached flow "[0]." that maps into the macro
+         LET nf == Len(st.flows) + 1 IN
+         [Emit(s1, <<Lay("v")>>) EXCEPT !.flows = Append(@, <<It("f", "[", p0+1, p1, 0), It("f", "0", p0+1, p1, 0), It("f", "]", p0+1, p1, 0), It("f", ".", p0+1, p1, 0)>>),
+                                         !.spans = Append(@, <<p0+1, p1>>)]
     [] s = "tbs" -> NoteText(Emit(s1, <<Lay("x"), It("f", BS, p0+1, p1, 0), Lay("x"), Lay("cw")>>), BS)
     [] s = "ilc" ->
          \* \item[label]: the label is copied, framed by blanks; a punctuation mark that ends the text before the item may be repeated behind it
@@ -532,8 +539,10 @@ Step(st, s) ==
          LET fr == Top(st)
              seg == SubSeq(st.flows[fr.flow], fr.mark + 1, Len(st.flows[fr.flow]))
              s2 == [s1 EXCEPT !.ctx = SubSeq(@, 1, Len(@)-1), !.flows[fr.flow] = SubSeq(@, 1, fr.mark)] IN
-         NoteText(Emit(s2, <<Lay("x"), It("f", "[", fr.start+1, p1, 0), It("f", "0", fr.start+1, p1, 0), It("f", ",", fr.start+1, p1, 0),
-                          It("g", "ws", fr.start+1, p1, 0), Lay("x")>> \o Opaque(seg) \o <<It("f", "]", fr.start+1, p1, 0), Lay("x")>>), "]")
+         \* (an empty optional argument: the built-in \cite writes "[0, ]", biblatex's "[0]" - the separator is then free)
+         NoteText(Emit(s2, <<Lay("x"), It("f", "[", fr.start+1, p1, 0), It("f", "0", fr.start+1, p1, 0)>> \o
+                          (IF \E i \in 1..Len(seg) : seg[i].t = "c" THEN <<It("f", ",", fr.start+1, p1, 0)>> ELSE <<It("g", "citesep", fr.start+1, p1, 0)>>) \o
+                          <<It("g", "ws", fr.start+1, p1, 0), Lay("x")>> \o Opaque(seg) \o <<It("f", "]", fr.start+1, p1, 0), Lay("x")>>), "]")
     [] s \in MathOpen -> [s1 EXCEPT !.ctx = Append(@, [Frame("math", CurFlow(st), p0) EXCEPT !.nm = s])]
     [] s \in DispOpen -> [s1 EXCEPT !.ctx = Append(@, [Frame("deq", CurFlow(st), p0) EXCEPT !.nm = s])]
     [] s = "skb" -> [s1 EXCEPT !.ctx = Append(@, Frame("skip", CurFlow(st), p0))]
